@@ -431,6 +431,7 @@ async def _gateway_history(events, depth: int) -> list[dict]:
     clog: list[int] = []
     nts = 0
     task = None
+    rexc = ""
     out: list[dict] = []
 
     def at(i: int):
@@ -494,11 +495,22 @@ async def _gateway_history(events, depth: int) -> list[dict]:
                         await settle()
                 if task is None or not task.done():
                     note = "not-done"
-                elif task.exception() is not None or task.result() is None:
-                    note = f"get_faultlog failed: {task.exception()!r}"
+                elif task.exception() is not None:
+                    # the read itself raised although every request was answered: the code's doing (never a harness fault);
+                    # anything but the library's own error family is "reading it raises" (clause b)
+                    from ramses_tx import exceptions as _exc
+                    err = task.exception()
+                    note = "code:ended-early"
+                    if not isinstance(err, _exc.RamsesException):
+                        rexc = f"get_faultlog:{type(err).__name__}"
+                elif task.result() is None:
+                    note = "get_faultlog failed: None"
                 task = None
             await settle()
             o = probe.observe()
+            if rexc:
+                o["exc"] = o["exc"] or rexc
+                rexc = ""
             o.update(k=k, a=a, b=b, ts=ts, note=note, aborted=False,
                      running=int(task is not None and not task.done()), done=int(task is not None and task.done()))
             out.append(o)
